@@ -421,3 +421,117 @@ def valid_spec(desc):
     if seen != known:
         raise ValueError("unreachable schema")
     return {"openapi": "3.1.0", "info": {"title": "t", "version": "1"}, "paths": paths, "components": {"schemas": comps}}
+
+
+# ---- C09: names the generator derives itself (request / response / parameter structs, inline members) ----
+import re as _re
+
+NAME_STYLES = ["pascal", "snake", "camel", "kebab", "dotted", "upper"]
+OPNAME_STATUS = ["200", "201", "202", "203", "206", "207", "208", "226"]
+
+
+def words_of(s):
+    """`createPet` / `create_pet` / `create-pet` -> ["create", "pet"]"""
+    s = _re.sub(r"([a-z0-9])([A-Z])", r"\1 \2", s)
+    return [w.lower() for w in _re.split(r"[^A-Za-z0-9]+", s) if w]
+
+
+def spell(words, style):
+    if style == "pascal":
+        return "".join(w.capitalize() for w in words)
+    if style == "camel":
+        return words[0] + "".join(w.capitalize() for w in words[1:])
+    if style == "upper":
+        return "_".join(w.upper() for w in words)
+    return {"snake": "_", "kebab": "-", "dotted": "."}[style].join(words)
+
+
+def _obj(members):
+    return {"type": "object", "required": members[:1], "properties": {m: {"type": "string"} for m in members}}
+
+
+def opnames_schema(s):
+    if "enum" in s:
+        return {"type": "string", "enum": list(s["enum"])}
+    if s.get("oneOf"):
+        # a union with inline object members (variant structs get derived names)
+        return {"oneOf": [dict(_obj(list(m)), title=t) if t else _obj(list(m)) for t, m in s["oneOf"]]}
+    o = _obj(list(s["members"]))
+    for prop, members in (s.get("inline") or {}).items():
+        o["properties"][prop] = _obj(list(members))
+    for prop, values in (s.get("inline_enum") or {}).items():
+        o["properties"][prop] = {"type": "string", "enum": list(values)}
+    return o
+
+
+def _opnames_operation(o, i, hook=False):
+    ref = lambda k: {"$ref": "#/components/schemas/" + k}
+    op = {"operationId": o["id"]} if o.get("id") is not None else {}
+    params = [{"name": n, "in": "query", "schema": {"type": "string"}} for n in o.get("q") or []]
+    params += [{"name": n, "in": "header", "schema": {"type": "string"}} for n in o.get("h") or []]
+    params += [{"name": n, "in": "path", "required": True, "schema": {"type": "string"}} for n in _re.findall(r"\{([^}]*)\}", o.get("p") or "")]
+    if params:
+        op["parameters"] = params
+    body = o.get("body")
+    if body is not None:
+        sch = _obj(["b%d" % i, "note"]) if body == "inline" else ref(body)
+        op["requestBody"] = {"required": True, "content": {"application/json": {"schema": sch}}}
+    resp = o.get("resp")
+    status = o.get("status") or OPNAME_STATUS[i % len(OPNAME_STATUS)]
+    if resp is None:
+        op["responses"] = {status: {"description": "done"}}
+    else:
+        sch = _obj(["r%d" % i, "text"]) if resp == "inline" else ({"type": "array", "items": ref(resp[4:])} if resp.startswith("arr:") else ref(resp))
+        op["responses"] = {status: {"description": "ok", "content": {"application/json": {"schema": sch}}}}
+    return op
+
+
+def opnames_spec(d):
+    """d["ops"]: HTTP operations {id, m, p, q, h, body, resp}; d["hooks"]: webhook operations {id, name, m, h, body,
+    resp}; d["schemas"]: component schemas {key, members | enum, inline, inline_enum, oneOf}.  Every operation gets
+    a status code of its own, so no two operations have the same response signature."""
+    spec = {"openapi": "3.1.0", "info": {"title": "t", "version": "1"}, "paths": {}, "components": {"schemas": {}}}
+    for s in d.get("schemas") or []:
+        spec["components"]["schemas"][s["key"]] = opnames_schema(s)
+    i = 0
+    for o in d.get("ops") or []:
+        spec["paths"].setdefault(o["p"], {})[o.get("m", "get")] = _opnames_operation(o, i)
+        i += 1
+    hooks = {}
+    for o in d.get("hooks") or []:
+        hooks.setdefault(o["name"], {})[o.get("m", "post")] = _opnames_operation(o, i, hook=True)
+        i += 1
+    if hooks:
+        spec["webhooks"] = hooks
+    return spec
+
+
+def opnames_entities(d):
+    """what the judge must find again in the emitted code: every component schema with its own members, and
+    every inline member type of a component schema (reached through the parent's field)"""
+    ents = {"schemas": [], "inline": []}
+    for s in d.get("schemas") or []:
+        if "enum" in s:
+            ents["schemas"].append({"key": s["key"], "kind": "enum", "members": len(s["enum"])})
+        elif s.get("oneOf"):
+            ents["schemas"].append({"key": s["key"], "kind": "enum", "members": len(s["oneOf"])})
+            for t, members in s["oneOf"]:
+                if t:
+                    # the variant struct of a titled inline member, reached through the variant of that title
+                    ents["inline"].append({"parent": s["key"], "prop": t, "kind": "struct", "fields": sorted(members)})
+        else:
+            names = list(s["members"]) + list(s.get("inline") or {}) + list(s.get("inline_enum") or {})
+            ents["schemas"].append({"key": s["key"], "kind": "struct", "fields": sorted(names)})
+            for prop, members in (s.get("inline") or {}).items():
+                ents["inline"].append({"parent": s["key"], "prop": prop, "kind": "struct", "fields": sorted(members)})
+            for prop, values in (s.get("inline_enum") or {}).items():
+                ents["inline"].append({"parent": s["key"], "prop": prop, "kind": "enum", "members": len(values)})
+    ents["ops"] = []
+    rf = lambda n: _re.sub(r"[^a-z0-9]+", "_", n.lower()).strip("_")
+    for o, hook in [(o, False) for o in d.get("ops") or []] + [(o, True) for o in d.get("hooks") or []]:
+        pathp = [] if hook else _re.findall(r"\{([^}]*)\}", o.get("p") or "")
+        e = {"method": o.get("m", "post" if hook else "get").upper(), "path": ("webhooks/" + o["name"]) if hook else o["p"],
+             "query": sorted(rf(n) for n in o.get("q") or []), "header": sorted(rf(n) for n in o.get("h") or []), "path_": sorted(rf(n) for n in pathp)}
+        e["main"] = [k for k in ("query", "header") if e[k]] + (["path"] if pathp else []) + (["body"] if o.get("body") is not None else [])
+        ents["ops"].append(e)
+    return ents
